@@ -693,6 +693,8 @@ def run_cproc(cc, targ, path):
 
 def classify(p):
     """finding id of a probe class that is a known/reported deviation, else None"""
+    if "*carr" in p.c:      # `*` applied to a decayed array with qualified elements drops the qualifiers
+        return "deref-array-qual"
     return None
 
 
@@ -770,10 +772,12 @@ def run_kb(ck):
                 stats["D4_deviation"] += 1
             if fid and not p.model["ok"]:
                 # known deviation class: the code (and the model) give a type the Spec rejects
-                ck.report({"kind": "kb-type", "target": targ, "expr": p.c, "code_type": p.model["txt"],
-                           "program": "int *p_i; int c; int k = _Generic(c ? (const void*)0 : p_i, int*: 1, const void*: 2, default: 3);",
-                           "what": "cproc's type violates C11 (class %s)" % fid}, fid=fid)
-                continue
+                if not diff:
+                    ck.report({"kind": "kb-type", "target": targ, "expr": p.c, "code_type": p.model["txt"],
+                               "program": "const int carr[2] = {1, 2};\nint k = _Generic(&*carr, int *: 1, const int *: 2, default: 3);\n",
+                               "what": "cproc's type violates C11 (class %s): the code agrees with the model, the Spec rejects both" % fid},
+                              fid=fid)
+                    continue
             if diff:
                 bad_n += 1
                 if bad_n > 3:
